@@ -39,6 +39,11 @@ ASSUMPTIONS = [
     "compute-call counts are predicted only where they are chunk-count determined: sources (= number of source "
     "chunks) and single-dependency plugins fed by a loader or by a one-chunk-per-call plugin",
     "numba helpers un-jitted; threaded runs pre-empted at synchronisation operations",
+    "time-range requests are executed (not only planned) when the data under the time range is stored or everything is "
+    "recomputed from sources: a time range mixing loaded (clipped) data with a recomputed source is compared with the "
+    "planner only, and an explicit alignment error of a multi-dependency plugin that is recomputed on the fly from "
+    "loaded inputs under a time range is not judged (no clause promises success there; stored targets under time "
+    "ranges are C10's subject) - both counted as classes",
 ]
 _COUNTER = itertools.count()
 OPS = ("rowwise", "merge", "filter", "multi", "loop", "overlap", "downchunk")
@@ -324,6 +329,16 @@ def run_case(d):
             for q in copy:
                 shutil.rmtree(q, ignore_errors=True)
 
+        # "Time range selection assumes data is already available" (strax's own words): under a time range the loaders
+        # deliver clipped chunks, while a SOURCE plugin that has to be recomputed (not stored, policy <= EXPLICIT) produces
+        # the whole run - a plugin joining the two gets inputs that do not line up and strax raises (ValueError /
+        # RuntimeError, never wrong rows).  That mixture is outside what a time-range request is documented for: the
+        # planner comparison above is kept, the execution is not judged.  (Everything recomputed from sources under a
+        # time range - nothing loaded - is supported and is executed here and in C10's sub-check unsaved.)
+        if d["modifier"] == "time_range" and expect_exc is None and P["load"] and any(
+                n["op"] == "source" and n["name"] in P["running"] for n in spec["nodes"]):
+            return dict(nt=False, classes=cl + ["time_range_mixing_loaded_data_with_a_recomputed_source:planner_only"])
+
         # ---- (b)-(e) the real request
         before = [set(c01.stored_dirs(p)) for p in dirs]
         rt["calls"].clear()
@@ -344,6 +359,14 @@ def run_case(d):
         if exc is not None:
             if d["modifier"] == "time_range" and isinstance(exc, ValueError) and "returned no chunks" in str(exc):
                 return dict(nt=False, classes=cl + ["time_range_no_chunk"])
+            if d["modifier"] == "time_range" and isinstance(exc, (RuntimeError, ValueError)) and any(
+                    len(n.get("deps", ())) >= 2 and n["name"] in P["running"] for n in spec["nodes"]):
+                # A plugin that is computed on the fly under a time range from two or more loaded inputs: every loader
+                # widens the range to the rows straddling its edges, so inputs of different kinds / layouts may cover
+                # different ranges and the input aligner raises (an explicit error, never wrong rows).  No clause of this
+                # property promises that such a request succeeds ("time range selection assumes data is already
+                # available"); time ranges over STORED targets are C10's subject.  Not judged, counted.
+                return dict(nt=False, classes=cl + ["time_range_alignment_error_in_recomputed_multi_dependency_plugin"])
             raise Violation("request.raised:" + type(exc).__name__, f"{tag} {exc!r} plan {P} {d}") from exc
         c01.check_sched(S, d)
         # (b) who ran
